@@ -37,8 +37,10 @@ LEVEL_TEXT = ("Lean 4 theorems, for every chunking (zero-length chunks included)
               "nonzero_nd_den (n-d, as unravelled flat positions); isin_den; ravel/unravel: unravel_ravel_C, ravel_unravel_C, "
               "ravel_multi_index_unravel, unravel_index_ravel (round trips, C and F order, exact error guard), "
               "ravel_multi_index_modes (raise/wrap/clip stay in bounds), unravel_blocks; compress_den, compress_rejects, "
-              "extract_den (condition no longer than the axis, any common chunking); coarsen: aligned_coarsen_chunks_spec "
-              "(never raises; positive multiples of the factor then the remainder; same total; (0,) for an empty axis), "
+              "extract_den (condition no longer than the axis, any common chunking), compress_np_den (NumPy condition longer "
+              "than the axis: False surplus ignored, True surplus IndexError); coarsen: aligned_coarsen_chunks_spec "
+              "(for EVERY tie-breaking of np.argsort, argsort_order_valid: never raises; positive multiples of the factor then "
+              "the remainder; same total; (0,) for an empty axis), "
               "aligned_coarsen_chunks_fixpoint, coarsen_any_chunking (guard + alignment + rechunk + block-wise chunk.coarsen = "
               "chunk.coarsen of the whole axis for EVERY chunking), coarsen_rejects, coarsen_declared_chunks, coarsen_den. "
               "All over exact ordered values (Nat) along one axis. Validated against NumPy only, not proved: float data / float "
@@ -59,7 +61,7 @@ ASSUMPTIONS = [
     "element values enter the model only through <, <=, == (the harness interns values order-preservingly as small non-negative ints; NaN as the largest value for searchsorted)",
     "rechunk keeps the values (C23: rechunk_values_unchanged) and blockwise brings its operands to common chunks (C25); the model takes the common chunks as a parameter",
     "np.argsort (default kind) is stable on the <= 16 chunk sizes aligned_coarsen_chunks sorts here (insertion sort); with more chunks only the proved post-condition is checked",
-    "histogram2d / histogramdd with a sequence of coordinate arrays require identical chunking (documented; ValueError otherwise) and compress requires len(condition) <= axis length (dask raises for a longer condition even when NumPy would accept trailing False entries)",
+    "histogram2d / histogramdd with a sequence of coordinate arrays require identical chunking (documented; ValueError otherwise): raising is accepted there; a DASK condition of compress longer than the axis is rejected by dask even when NumPy would ignore its all-False surplus (known finding compress:dask-condition-longer-than-axis:raises; NumPy conditions follow NumPy exactly)",
 ]
 TRUSTED = ["float bin-edge comparisons, weights and density normalisation are validated against NumPy, not modelled",
            "indices(shape) raveled in C order = unravel_index of the flat position (validated: argwhere vs the Lean model vs np.argwhere)"]
@@ -537,7 +539,13 @@ def case_misc(ctx, inp):
                 ctx.branch("compress:np-condition:model")
         else:
             c2 = cond[: x.size].reshape(x.shape) if cond.size >= x.size else np.resize(cond, x.shape)
-            _cmp(ctx, "extract", da.extract(da.from_array(c2, chunks=d.chunks), d).compute(scheduler="sync"), np.extract(c2, x))
+            cch = tuple(tuple(c) for c in inp["cond_chunks"]) if inp.get("cond_chunks") else d.chunks
+            if cch != d.chunks:
+                ctx.branch("extract:condition-chunked-differently")
+            _cmp(ctx, "extract", da.extract(da.from_array(c2, chunks=cch), d).compute(scheduler="sync"), np.extract(c2, x))
+            if x.size:
+                m = ctx.lean(Sym("compress"), [x.size], [int(c) for c in c2.ravel()], [int(v) for v in x.ravel()])
+                ctx.eq("extract: Lean selection on the flattenings vs NumPy", m[2] if m[0] == "ok" else m, np.extract(c2, x).tolist())
     ctx.branch("misc:" + op)
 
 
@@ -905,7 +913,10 @@ def case_ravel(ctx, inp):
             arg = tuple(da.from_array(idx[r], chunks=(tuple(inp["chunks1"]),)) for r in range(k))
         else:
             arg = da.from_array(idx, chunks=(tuple(inp["chunks0"]), tuple(inp["chunks1"])))
-        g = da.ravel_multi_index(arg, dims, mode=mode, order=order).compute(scheduler="sync")
+        ddims = dims[0] if (inp.get("scalar_dims") and k == 1) else dims
+        g = da.ravel_multi_index(arg, ddims, mode=mode, order=order).compute(scheduler="sync")
+        if ddims is not dims:
+            ctx.branch("ravel:scalar-dims")
     except ValueError as ex:
         if e is None:
             ctx.eq("ravel_multi_index: an invalid coordinate is rejected by the model too", m, ["raised"])
@@ -1152,7 +1163,7 @@ def _gen_ravel(ctx, count):
         idx = [rng.randint(-6, 8) if wild and rng.random() < 0.5 else rng.randrange(dm) for dm in dims for _ in range(n)]
         yield "ravel", {"dims": dims, "idx": idx, "order": rng.choice(["C", "F"]), "mode": mode,
                         "form": "tuple" if rng.random() < 0.25 else "stack", "chunks0": rand_comp(rng, len(dims)),
-                        "chunks1": _comp(rng, n, 0.2)}
+                        "chunks1": _comp(rng, n, 0.2), "scalar_dims": rng.random() < 0.5}
 
 
 def _gen_unravel(ctx, count):
@@ -1461,5 +1472,8 @@ def _gen_misc(ctx, count):
                 # a NumPy condition longer than the axis: fine while the surplus entries are False
                 cond = [rng.random() < 0.5 for _ in range(ln)] + [rng.random() < 0.15 for _ in range(rng.randint(1, 3))]
                 k = len(cond)
-            yield "misc", {"op": op, "x": [rng.randint(0, 9) for _ in range(n)], "shape": shape, "chunks": chunks,
-                           "cond": cond, "axis": ax, "dask_cond": dask_cond, "cchunks": rand_comp(rng, k)}
+            inp = {"op": op, "x": [rng.randint(0, 9) for _ in range(n)], "shape": shape, "chunks": chunks,
+                   "cond": cond, "axis": ax, "dask_cond": dask_cond, "cchunks": rand_comp(rng, k)}
+            if op == "extract" and rng.random() < 0.5:
+                inp["cond_chunks"] = [_comp(rng, sh, 0.15) for sh in shape]
+            yield "misc", inp
